@@ -10,6 +10,7 @@
 #include <gmssl/sm4_cbc_mac.h>
 #include <gmssl/block_cipher.h>
 #include <gmssl/gf128.h>
+#include <gmssl/aes.h>
 
 #define MAXC 160
 #define CAN 64
@@ -249,6 +250,36 @@ static void handle(size_t nw, char **w) {
 		for (i = 0; i < k; i++) sm4_cbc_mac_update(&c, ch[i].p, ch[i].n);
 		sm4_cbc_mac_finish(&c, m); puthex(m, 16);
 		free(m); free(key.p); free_chunks(ch, k);
+	}
+	else if (!strcmp(op, "a_cbcblocks") && nw == 6) { /* a_cbcblocks enc|dec key iv data ip : aes_cbc_encrypt/decrypt */
+		buf_t key = hex2buf(w[2]), iv = hex2buf(w[3]), d = hex2buf(w[4]); int ip = atoi(w[5]); AES_KEY k;
+		uint8_t *in = dup_exact(d.p, d.n), *o = ip ? in : malloc(d.n ? d.n : 1); int enc = !strcmp(w[1], "enc");
+		if ((enc ? aes_set_encrypt_key(&k, key.p, key.n) : aes_set_decrypt_key(&k, key.p, key.n)) != 1) printf("ERR key");
+		else {
+			if (enc) aes_cbc_encrypt(&k, iv.p, in, d.n / 16, o); else aes_cbc_decrypt(&k, iv.p, in, d.n / 16, o);
+			puthex(o, d.n / 16 * 16);
+		}
+		if (!ip) free(o); free(in); free(key.p); free(iv.p); free(d.p);
+	}
+	else if (!strcmp(op, "a_cbcpad") && nw == 6) {   /* a_cbcpad enc|dec key iv data ip : aes_cbc_padding_* */
+		buf_t key = hex2buf(w[2]), iv = hex2buf(w[3]), d = hex2buf(w[4]); int ip = atoi(w[5]); AES_KEY k;
+		int enc = !strcmp(w[1], "enc"); size_t cap = enc ? d.n - d.n % 16 + 16 : (d.n ? d.n : 1), ol = 0; int r;
+		uint8_t *in, *o;
+		if (ip) { in = malloc(cap > d.n ? cap : (d.n ? d.n : 1)); memcpy(in, d.p, d.n); o = in; }
+		else { in = dup_exact(d.p, d.n); o = malloc(cap); }
+		if ((enc ? aes_set_encrypt_key(&k, key.p, key.n) : aes_set_decrypt_key(&k, key.p, key.n)) != 1) printf("ERR key");
+		else {
+			r = enc ? aes_cbc_padding_encrypt(&k, iv.p, in, d.n, o, &ol) : aes_cbc_padding_decrypt(&k, iv.p, in, d.n, o, &ol);
+			if (r == 1) puthex(o, ol); else printf("ERR");
+		}
+		if (!ip) free(o); free(in); free(key.p); free(iv.p); free(d.p);
+	}
+	else if (!strcmp(op, "a_ctr") && nw == 5) {      /* a_ctr key ctr data ip -> ctr' out : aes_ctr_encrypt */
+		buf_t key = hex2buf(w[1]), c = hex2buf(w[2]), d = hex2buf(w[3]); int ip = atoi(w[4]); AES_KEY k;
+		uint8_t *in = dup_exact(d.p, d.n), *o = ip ? in : malloc(d.n ? d.n : 1);
+		if (aes_set_encrypt_key(&k, key.p, key.n) != 1) printf("ERR key");
+		else { aes_ctr_encrypt(&k, c.p, in, d.n, o); puthex(c.p, 16); printf(" "); puthex(o, d.n); }
+		if (!ip) free(o); free(in); free(key.p); free(c.p); free(d.p);
 	}
 	else printf("ERR bad-op");
 }
